@@ -231,7 +231,7 @@ func CloneGuard() (bool, string) {
 // Replay builds a fresh game for c and applies ops on the one uninterrupted
 // in-memory object ("Reload" ops rebuild it from its JSON, for C07).
 func Replay(c *Config, ops []Op) (pf.Game, error) {
-	g, err := c.NewStartedShared()
+	g, err := c.NewStarted()
 	if err != nil {
 		return nil, fmt.Errorf("Start: %w", err)
 	}
